@@ -316,7 +316,8 @@ Section CodecRegionOK.
       (fun x : st R * codec => inv (fst x) /\ codec_ok (snd x))
       (fun (x : st R * codec) (i : idx R) => valid (fst x) i)
       (fun (x : st R * codec) (v : bytes) => stored_form (snd x) v <> Panic)
-      (fun x y : st R * codec => sim (fst x) (fst y) /\ snd x = snd y).
+      (fun x y : st R * codec => sim (fst x) (fst y) /\ snd x = snd y)
+      (fun l : list (st R * codec) => mergeable (map fst l)).
 
   #[export] Instance codec_region_ok : RegionOK CR.
   Proof.
@@ -345,8 +346,8 @@ Section CodecRegionOK.
       destruct (valid_reads s j Hs Hv) as (w & Hw). cbn [read codec_region fst snd]. rewrite Hw. cbn [bind]. eexists. reflexivity.
     - intros [s c] [Hs _]. cbn [fst snd inv sim codec_region_spec clear dflt codec_region] in *.
       destruct (clear_ok s Hs) as [Hci Hcs]. split; [split; [assumption|apply codec_default_ok]|split; [assumption|reflexivity]].
-    - intros l Hl. cbn. split.
-      + apply merge_inv. rewrite Forall_forall in *. intros y Hy. apply in_map_iff in Hy.
+    - intros l Hl Hm. cbn. split.
+      + apply merge_inv; [|exact Hm]. rewrite Forall_forall in *. intros y Hy. apply in_map_iff in Hy.
         destruct Hy as (x & <- & Hx). apply (Hl x Hx).
       + apply new_from_ok. rewrite Forall_forall in *. intros y Hy. apply in_map_iff in Hy.
         destruct Hy as (x & <- & Hx). apply (Hl x Hx).
